@@ -62,6 +62,47 @@ def executing_field_names(hs):
     return out
 
 
+def field_origin(b, o, depth=0):
+    """(ADT, field name) an operand is a copy / borrow / clone of, or ("call", callee) for a call result."""
+    if o is None or o["k"] == "const" or depth > 8:
+        return None
+    pl = o["p"]
+    fl_ = [e for e in pl["pr"] if isinstance(e, dict) and e.get("n") and e.get("a")]
+    if fl_:
+        return (fl_[-1]["a"].rsplit("::", 1)[-1].split("<")[0], fl_[-1]["n"])
+    d = single_def(b, pl["l"])
+    if d is None:
+        return None
+    bi, si, r = d
+    if si == "t":
+        cn = callee_names(r)
+        tl = cn[-1].rsplit("::", 1)[-1] if cn else ""
+        if tl in ("deref", "clone", "as_ref", "borrow", "as_str", "to_owned", "to_string") and r["args"] and r["args"][0]["k"] != "const":
+            return field_origin(b, r["args"][0], depth + 1)
+        return ("call", cn[-1] if cn else "?")
+    if r["k"] == "use":
+        return field_origin(b, r["o"], depth + 1)
+    if r["k"] in ("ref", "rawptr"):
+        return field_origin(b, {"k": "copy", "p": r["p"]}, depth + 1)
+    return None
+
+
+def compat_kind(b, oa, ob):
+    """Which compatibility test compares these two operands: "leader" (ValidateRequest.leader vs
+    Policy.leader), "program_hash" (ValidateRequest.program_hash vs Policy::program_hash()), or None."""
+    fa, fb = field_origin(b, oa), field_origin(b, ob)
+    kinds = {fa, fb}
+    if None in kinds:
+        kinds.discard(None)
+    if {("ValidateRequest", "leader"), ("Policy", "leader")} <= kinds:
+        return "leader"
+    has_req_hash = ("ValidateRequest", "program_hash") in kinds
+    has_pol_hash = any(k_[0] == "call" and k_[1].endswith("Policy::program_hash") for k_ in kinds)
+    if has_req_hash and has_pol_hash:
+        return "program_hash"
+    return None
+
+
 class Srv:
     def __init__(self, ctx, res):
         import env
@@ -615,6 +656,28 @@ class Srv:
                         idxn = sm.name_of_operand(b, t["mops"][1]) or ""
                         if any(x in idxn for x in ("from", "leader", "party")):
                             res.bad("R1.cmd", "%s|bounds[%s]" % (name, idxn), "a command-supplied index is used in a bounds-checked access", fl(t["sp"]))
+        # by type, independent of variable names: an index operand that is (a cast / copy of) a field of a
+        # command or policy structure
+        CMD_ADTS = {"MpcMsg", "RunRequest", "ConstsRequest", "ValidateRequest", "Policy"}
+        for name, h in self.hs.items():
+            for k, b in h.bodies.items():
+                for bi, t in b.calls():
+                    cn = callee_names(t)
+                    tl = cn[-1].rsplit("::", 1)[-1] if cn else ""
+                    if tl in ("index", "index_mut") and len(t["args"]) == 2 and bi in b.live_blocks():
+                        o = t["args"][1]
+                        # through casts
+                        cur = o
+                        for _ in range(4):
+                            d = single_def(b, cur["p"]["l"]) if cur["k"] != "const" and not cur["p"]["pr"] else None
+                            if d and d[1] != "t" and d[2]["k"] == "cast":
+                                cur = d[2]["o"]
+                            else:
+                                break
+                        fo = field_origin(b, cur)
+                        if fo and fo[0] in CMD_ADTS:
+                            res.bad("R1.cmd", "%s|index[%s.%s]" % (name, fo[0], fo[1]), "a field of a command (%s.%s) is used to index a container without a range check (panics the state machine task)" % fo, where(b, bi),
+                                    key="R1.cmd|%s|%s.%s" % (name, fo[0], fo[1]))
         self.res.count("index_sites_in_handlers", n)
         msg = self.hs.get("msg")
         if msg:
@@ -1334,12 +1397,9 @@ class Srv:
             # Ne/Eq binop in this block
             for s in blk["s"]:
                 if s["k"] == "assign" and s["p"]["l"] == l and s["r"]["k"] == "bin" and s["r"]["op"] in ("Ne", "Eq"):
-                    na = sm.name_of_operand(b, s["r"]["a"]) or ""
-                    nb = sm.name_of_operand(b, s["r"]["b"]) or ""
-                    if "leader" in na and "leader" in nb and ("request" in na + nb):
-                        what, op = "leader", s["r"]["op"]
-                    if "program_hash" in na + nb:
-                        what, op = "program_hash", s["r"]["op"]
+                    ck_ = compat_kind(b, s["r"]["a"], s["r"]["b"])
+                    if ck_:
+                        what, op = ck_, s["r"]["op"]
             if what is None:
                 # result of PartialEq::ne / eq call in the predecessor
                 for pb in b.pred()[bi]:
@@ -1352,13 +1412,7 @@ class Srv:
                             op = "Eq"
                         else:
                             continue
-                        na = sm.name_of_operand(b, pt["args"][0]) or ""
-                        nb = sm.name_of_operand(b, pt["args"][1]) or ""
-                        both = na + " " + nb
-                        if "program_hash" in both:
-                            what = "program_hash"
-                        elif "leader" in na and "leader" in nb:
-                            what = "leader"
+                        what = compat_kind(b, pt["args"][0], pt["args"][1])
             if what is None:
                 continue
             tm = {v: tb for v, tb in t["ts"]}
